@@ -28,7 +28,8 @@ RAISES = ['TokenError', 'IndentationError', 'SyntaxError', 'ValueError', 'Recurs
           'AssertionError', 'IndexError', 'KeyError', 'UnicodeDecodeError']
 NASTY = ['>>> x = (', '>>> "', ">>> '''", '... )', '>>> x = 1  # xdoctest: +REQUIRES(module:os))', '>>> # doctest: +ELLIPSIS)',
          '>>> y = 1  # xdoctest: +REQUIRES(module:os', '>>> d = {"a" 1}', '>>> print("{}".format(3) 4)', '>>> if True:', '...  x', '>>> \\',
-         '>>> \x00', '    >>> def f(:', 'w', '', '>>> return 1', '>>> x = 1;; y', '>>> 1 +', '... ', '>>> @', '>>> lambda: (yield)']
+         '>>> \x00', '    >>> def f(:', 'w', '', '>>> return 1', '>>> x = 1;; y', '>>> 1 +', '... ', '>>> @', '>>> lambda: (yield)',
+         '>>>', '... x = (1,']
 BOUNDS = {'quick': 'parse_contains: 2 symbolic lines x <=5 chars, every oracle call may raise one of %d exception types; collection: 3 docstrings; real_malformed: 2 lines from %d fragments' % (len(RAISES), len(NASTY)),
           'thorough': 'parse_contains: 3 lines; collection: 4 docstrings; real_malformed: 3 lines'}
 OUTSIDE = 'that CPython\'s tokenizer / ast raise only these exception types (their contract is the stub); BaseException (KeyboardInterrupt); warnings turned into errors by the caller\'s filters'
@@ -203,8 +204,66 @@ class Collection(Harness):
         return {'harness': 'coll', 'kinds': [KINDS[n(v)] for v in self.kind], 'style': ['auto', 'google', 'freeform'][n(self.style)]}
 
 
+FORMS = ['freeform text', 'one google block', 'malformed google block, then a valid block', 'valid google block, then the malformed block']
+
+
+def real_malformed_problems(parser, exceptions, core, lines, style, form):
+    """the fragments as a docstring in one of FORMS, through the real parser and the real extraction.
+    -> (problems, facts).  Malformed means: DoctestParser.parse raises its parse error on the text it is given, either
+    directly on the whole docstring (what freeform extraction parses) or on a block during the extraction."""
+    import warnings
+    doc = '\n'.join(lines)
+    block = 'Example:\n' + '\n'.join('    ' + l for l in lines) + '\n'
+    good = 'Example:\n    >>> ok = 1\n'
+    text = [doc + '\n', block, block + '\n' + good, good + '\n' + block][form]
+    bad, facts = [], {}
+    try:
+        parser.DoctestParser().parse(doc)
+        facts['direct'] = 'parsed'
+    except exceptions.DoctestParseError:
+        facts['direct'] = 'parse_error'
+    except Exception as e:
+        facts['direct'] = 'other'
+        bad.append('DoctestParser.parse raises %s: %s' % (type(e).__name__, e))
+    whole_malformed = False
+    try:
+        parser.DoctestParser().parse(text)
+    except exceptions.DoctestParseError:
+        whole_malformed = True
+    except Exception:
+        pass
+    real_parse = parser.DoctestParser.parse
+    inside = []
+
+    def spy(self_, string, info=None):
+        try:
+            return real_parse(self_, string, info)
+        except exceptions.DoctestParseError:
+            inside.append(string)
+            raise
+    parser.DoctestParser.parse = spy
+    got = None
+    with warnings.catch_warnings(record=True) as wl:
+        warnings.simplefilter('always')
+        try:
+            got = list(core.parse_docstr_examples(text, callname='f', modpath=None, fpath='m.txt', lineno=1, style=style))
+        except Exception as e:
+            bad.append('extracting examples raises %s: %s' % (type(e).__name__, e))
+        finally:
+            parser.DoctestParser.parse = real_parse
+    facts['raised_inside'] = bool(inside)
+    if got is not None:
+        reaches_whole = style == 'freeform' or (style == 'auto' and form == 0)
+        if inside or (reaches_whole and whole_malformed):
+            if got:
+                bad.append('malformed docstring yields %d example(s)' % len(got))
+            if not wl:
+                bad.append('malformed docstring gives no warning')
+    return bad, facts
+
+
 class RealMalformed(Harness):
-    witnesses = ('parse_error', 'parsed')
+    witnesses = ('parse_error', 'parsed', 'malformed_block_next_to_a_valid_one', 'bare_prompt_malformed')
 
     def __init__(self, job):
         instrumented()
@@ -214,41 +273,34 @@ class RealMalformed(Harness):
         K = self.K = job['k']
         self.tok = [z3.Int('fragment%d' % i) for i in range(K)]
         self.style = z3.Int('style')
-        self.base = [self.style >= 0, self.style <= 2]
+        self.form = z3.Int('docstring_form')
+        self.base = [self.style >= 0, self.style <= 2, self.form >= 0, self.form < len(FORMS)]
         for i in range(K):
             self.base += [self.tok[i] >= 0, self.tok[i] < len(NASTY)]
         from sea import instrument
         instrument.RT.STUBS['print'] = lambda *a, **k: None
 
     def run(self, ex):
-        import warnings
         from sea.core import SymInt
         lines = [NASTY[int(SymInt(v))] for v in self.tok]
-        doc = '\n'.join(lines)
-        props = {}
-        try:
-            self.parser.DoctestParser().parse(doc)
-            ex.witness('parsed', True)
-        except self.exceptions.DoctestParseError:
-            ex.witness('parse_error', True)
-        except Exception as e:
-            self.last_error = '%s: %s' % (type(e).__name__, e)
-            props['only_the_parse_error_escapes'] = z3.BoolVal(False)
         style = ['auto', 'google', 'freeform'][int(SymInt(self.style))]
-        gdoc = 'Example:\n' + '\n'.join('    ' + l for l in lines) + '\n'
-        with warnings.catch_warnings(record=True):
-            warnings.simplefilter('always')
-            try:
-                list(self.core.parse_docstr_examples(gdoc, callname='f', modpath=None, fpath='m.txt', lineno=1, style=style))
-            except Exception as e:
-                self.last_error = '%s: %s' % (type(e).__name__, e)
-                props['extracting_examples_never_raises'] = z3.BoolVal(False)
-        return props or {'contained': z3.BoolVal(True)}
+        form = int(SymInt(self.form))
+        bad, facts = real_malformed_problems(self.parser, self.exceptions, self.core, lines, style, form)
+        self.last_error = bad
+        if facts.get('direct') == 'parsed':
+            ex.witness('parsed', True)
+        if facts.get('direct') == 'parse_error':
+            ex.witness('parse_error', True)
+        if facts.get('raised_inside') and form >= 2 and not bad:
+            ex.witness('malformed_block_next_to_a_valid_one', True)
+        if lines[0] == '>>>' and facts.get('direct') == 'parse_error':
+            ex.witness('bare_prompt_malformed', True)
+        return {'contained_warned_and_no_example': z3.BoolVal(not bad)}
 
     def describe(self, model):
         def n(v):
             return model.eval(v, model_completion=True).as_long()
-        return {'harness': 'real', 'lines': [NASTY[n(v)] for v in self.tok], 'style': ['auto', 'google', 'freeform'][n(self.style)]}
+        return {'harness': 'real', 'lines': [NASTY[n(v)] for v in self.tok], 'style': ['auto', 'google', 'freeform'][n(self.style)], 'form': n(self.form)}
 
 
 def build(job):
@@ -262,22 +314,12 @@ def replay(job, cex):
     from xdoctest import parser, exceptions, core
     h = cex.get('harness')
     if h == 'real':
-        doc = '\n'.join(cex['lines'])
-        bad = []
-        try:
-            parser.DoctestParser().parse(doc)
-        except exceptions.DoctestParseError:
-            pass
-        except Exception as e:
-            bad.append('parse raises %s' % type(e).__name__)
-        gdoc = 'Example:\n' + '\n'.join('    ' + l for l in cex['lines']) + '\n'
-        with warnings.catch_warnings(record=True):
-            warnings.simplefilter('always')
-            try:
-                list(core.parse_docstr_examples(gdoc, callname='f', modpath=None, fpath='m.txt', lineno=1, style=cex['style']))
-            except Exception as e:
-                bad.append('parse_docstr_examples raises %s' % type(e).__name__)
-        return {'reproduced': bool(bad), 'detail': 'docstring %r style %s: %s' % (doc, cex['style'], bad), 'signature': 'C14:real:' + ';'.join(bad)}
+        import io
+        import contextlib
+        with contextlib.redirect_stdout(io.StringIO()):
+            bad, facts = real_malformed_problems(parser, exceptions, core, cex['lines'], cex['style'], cex.get('form', 1))
+        return {'reproduced': bool(bad), 'detail': 'fragments %r as %s, style %s: %s' % (cex['lines'], FORMS[cex.get('form', 1)], cex['style'], bad),
+                'signature': 'C14:real:' + ';'.join(b.split(' raises')[0][:40] for b in bad)}
     if h == 'coll':
         # realise the malformed docstrings with real syntax errors in a real module
         import os
